@@ -875,7 +875,7 @@ func (x *Exec) execDefer(f *Frame, i *ssa.Defer) {
 	for _, a := range i.Call.Args {
 		args = append(args, x.val(f, a))
 	}
-	f.deferred = append(f.deferred, deferRec{ins: i, fn: fv, args: args})
+	f.deferred = append(f.deferred, deferRec{ins: i, fn: fv, args: args, guard: x.cur.reach})
 }
 
 // runDeferred runs the deferred closures (last first) in the current state. Defers registered on a
@@ -885,7 +885,23 @@ func (x *Exec) runDeferred(f *Frame) {
 	for k := len(f.deferred) - 1; k >= 0; k-- {
 		d := f.deferred[k]
 		if d.ins.Block() != f.fn.Blocks[0] {
-			x.fail("defer outside the entry block")
+			// a defer registered on some paths only (if c { defer ... }): it runs exactly on the paths
+			// that went through its registration; not supported inside loops
+			for _, li := range f.loops {
+				if li != nil && li.body[d.ins.Block()] {
+					x.fail("defer inside a loop")
+				}
+			}
+			base := x.cur
+			taken := base.clone()
+			taken.reach = x.b.Def("reach_defer", And(base.reach, d.guard))
+			x.cur = taken
+			x.inline(f, d.fn.Fn, d.args, d.fn.Bind, d.ins.Pos())
+			takenSt := x.cur
+			skip := base.clone()
+			skip.reach = x.b.Def("reach_nodefer", And(base.reach, Not(d.guard)))
+			x.cur = x.mergeStates([]inEdge{{takenSt, takenSt.reach}, {skip, skip.reach}}, "defer")
+			continue
 		}
 		x.inline(f, d.fn.Fn, d.args, d.fn.Bind, d.ins.Pos())
 	}
